@@ -318,6 +318,59 @@ fn live_case(c: &(Vec<u64>, u8, bool), obs: &mut Obs) -> CaseResult {
     Ok(())
 }
 
+/// The closure's memory effects must happen while the flag is clear: a plain (non-volatile) store made
+/// by the closure must not be visible yet at the trapped `cli` and must be visible at the trapped
+/// `sti`. (If the wrappers let the compiler move or merge ordinary memory accesses across the flag
+/// changes, optimised builds execute the closure's effects outside the interrupt-free window.)
+static mut WINDOW_CELL: u64 = 0;
+
+#[inline(never)]
+fn window_inner(a: u64, b: u64, c: u64, nested: bool) -> u64 {
+    unsafe {
+        let cell = core::ptr::addr_of_mut!(WINDOW_CELL);
+        *cell = a;
+        let r = if nested {
+            interrupts::without_interrupts(|| {
+                interrupts::without_interrupts(|| {
+                    *cell = b;
+                    b ^ 0x55
+                })
+            })
+        } else {
+            interrupts::without_interrupts(|| {
+                *cell = b;
+                b ^ 0x55
+            })
+        };
+        *cell = c;
+        r
+    }
+}
+
+fn window_case(c: &(u64, u64, u64, bool), obs: &mut Obs) -> CaseResult {
+    let (a, b, cc, nested) = *c;
+    if a == b || b == cc {
+        return Ok(());
+    }
+    let cp = cpu();
+    cp.reset();
+    cp.set_if(true);
+    cp.set_flags_overlay(true, 0, 0);
+    umh::PROBE.store(core::ptr::addr_of_mut!(WINDOW_CELL), std::sync::atomic::Ordering::SeqCst);
+    cp.clear_log();
+    let r = window_inner(a, b, cc, nested);
+    umh::PROBE.store(core::ptr::null_mut(), std::sync::atomic::Ordering::SeqCst);
+    let log = cpu().take_log();
+    cp.reset();
+    ensure_eq!(r, b ^ 0x55, "result returned through without_interrupts");
+    let ops: Vec<Op> = log.iter().map(|t| t.op).collect();
+    ensure_eq!(ops, vec![Op::Cli, Op::Sti], "instructions trapped around the closure (initial IF = 1)");
+    ensure!(log[0].c != b, "the closure's store ({:#x}) was already in memory when cli executed: it ran before interrupts were disabled", b);
+    ensure_eq!(log[1].c, b, "memory at the moment sti executed: the closure's store must have happened inside the interrupt-free window (before: {:#x})", a);
+    obs.nontrivial(&(a & 0xff, b & 0xff, nested));
+    Ok(())
+}
+
 pub fn run(run: &mut Run) {
     umh::install();
     run.assume("cli/sti/hlt executed in ring 3 raise #GP and are emulated on an emulated IF; rflags::read_raw shows that IF through hook H2 (pushfq cannot be trapped)");
@@ -337,6 +390,14 @@ pub fn run(run: &mut Run) {
         n,
         (proptest::collection::vec(any::<u64>(), 24), 0u8..3, any::<bool>()),
         live_case,
+    );
+    let n = run.cases(30_000, 1_000_000);
+    run.sub(
+        "memory_window",
+        "a non-inlined caller stores a, calls without_interrupts(closure storing b) (plain stores to one static, also doubly nested), then stores c; the static is sampled by the trap handler at the trapped cli and sti: b must not be there at cli and must be there at sti (the closure's memory effects happen inside the interrupt-free window in every build profile)",
+        n,
+        (any::<u64>(), any::<u64>(), any::<u64>(), any::<bool>()),
+        window_case,
     );
     run.exhaustive(
         "enable_and_hlt",
